@@ -401,6 +401,64 @@ fn gen_late_child(rng: &mut Rng, g: &QGen, named: &[&Node]) -> Option<String> {
     Some(format!("{s}{cap}\n"))
 }
 
+/// Family 4: an EXTRA node (comment) as a child pattern, captured and anchored before / after /
+/// on both sides, optionally with the neighbouring sibling as a further child pattern.  Extras are
+/// real siblings for anchors and last-child tests; their sibling status goes through the
+/// structural-index bookkeeping of the tree cursor (alias sequences skip extras).
+fn gen_extra_anchor(rng: &mut Rng, g: &QGen, nodes: &[Node]) -> Option<String> {
+    let extras: Vec<&Node> = nodes.iter().filter(|n| n.is_extra() && n.is_named() && !n.is_error() && !n.is_missing() && n.parent().is_some()).collect();
+    if extras.is_empty() {
+        return None;
+    }
+    let x = **rng.pick(&extras);
+    let p = x.parent()?;
+    if p.is_error() {
+        return None;
+    }
+    let prev = x.prev_sibling();
+    let next = x.next_sibling();
+    let simple = |n: &Node| -> Option<String> {
+        if n.is_error() || n.is_missing() {
+            None
+        } else if n.is_named() {
+            Some(format!("({})", n.kind()))
+        } else {
+            Some(quote(n.kind()))
+        }
+    };
+    let mut s = format!("({}", p.kind());
+    let xcap = if rng.chance(3, 4) { g.capture(rng) } else { String::new() };
+    match rng.below(6) {
+        0 => s.push_str(&format!(" ({}){xcap} .", x.kind())),                    // last-child test on the extra
+        1 => s.push_str(&format!(" . ({}){xcap}", x.kind())),                    // first-child test
+        2 => s.push_str(&format!(" . ({}){xcap} .", x.kind())),
+        3 => {
+            // the sibling before it, anchored
+            match prev.as_ref().and_then(simple) {
+                Some(a) => s.push_str(&format!(" {a} . ({}){xcap}{}", x.kind(), if rng.chance(1, 2) { " ." } else { "" })),
+                None => s.push_str(&format!(" ({}){xcap} .", x.kind())),
+            }
+        }
+        4 => {
+            // the sibling after it, anchored
+            match next.as_ref().and_then(simple) {
+                Some(b) => s.push_str(&format!("{} ({}){xcap} . {b}{}", if rng.chance(1, 3) { " ." } else { "" }, x.kind(), if rng.chance(1, 3) { g.capture(rng) } else { String::new() })),
+                None => s.push_str(&format!(" ({}){xcap} .", x.kind())),
+            }
+        }
+        _ => {
+            // unanchored pair with a neighbour, trailing anchor on whichever comes last
+            match next.as_ref().and_then(simple) {
+                Some(b) => s.push_str(&format!(" ({}){xcap} {b} .", x.kind())),
+                None => s.push_str(&format!(" ({}){xcap}", x.kind())),
+            }
+        }
+    }
+    s.push(')');
+    let cap = if rng.chance(1, 2) { g.capture(rng) } else { String::new() };
+    Some(format!("{s}{cap}\n"))
+}
+
 fn gen_query(rng: &mut Rng, g: &mut QGen, tree: &Tree) -> Option<String> {
     let nodes = all_nodes(tree);
     let named: Vec<&Node> = nodes.iter().filter(|n| n.is_named() && !n.is_missing()).collect();
@@ -416,6 +474,11 @@ fn gen_query(rng: &mut Rng, g: &mut QGen, tree: &Tree) -> Option<String> {
         }
         3 => {
             if let Some(q) = gen_late_child(rng, g, &named) {
+                return Some(q);
+            }
+        }
+        4 | 5 | 6 => {
+            if let Some(q) = gen_extra_anchor(rng, g, &nodes) {
                 return Some(q);
             }
         }
@@ -620,12 +683,12 @@ fn main() {
     let only: Vec<String> = args[2..].to_vec();
     let mut rng = Rng::new(seed_from_env());
     let thorough = tier_is_thorough();
-    let default_langs = ["lst", "arith", "jsonish", "stmt", "fx_readme_grammar", "fx_aliased_rules", "fx_inline_rules", "fx_extra_non_terminals", "fx_immediate_tokens", "fx_aliased_inlined_rules"];
+    let default_langs = ["lst", "arith", "jsonish", "stmt", "fx_readme_grammar", "fx_aliased_rules", "fx_inline_rules", "fx_extra_non_terminals", "fx_immediate_tokens", "fx_aliased_inlined_rules", "pairs"];
     let langs: Vec<String> = if !only.is_empty() {
         only
     } else if thorough {
         // a fixed list (the zoo grows while other properties are built; a check must not change with it)
-        let allow: &[&str] = &["arith","fx_aliased_inlined_rules","fx_aliased_rules","fx_aliased_token_rules","fx_aliased_unit_reductions","fx_anonymous_error","fx_associativity_left","fx_associativity_right","fx_depends_on_column","fx_dynamic_precedence","fx_epsilon_external_tokens","fx_external_and_internal_tokens","fx_external_tokens","fx_external_unicode_column_alignment","fx_extra_non_terminals","fx_extra_non_terminals_with_shared_rules","fx_immediate_tokens","fx_inline_rules","fx_inlined_aliased_rules","fx_lexical_conflicts_due_to_state_merging","fx_named_rule_aliased_as_anonymous","fx_nested_inlined_rules","fx_next_sibling_from_zwt","fx_precedence_on_subsequence","fx_readme_grammar","fx_reserved_words","fx_unicode_classes","jsonish","lst","stmt"];
+        let allow: &[&str] = &["arith","fx_aliased_inlined_rules","fx_aliased_rules","fx_aliased_token_rules","fx_aliased_unit_reductions","fx_anonymous_error","fx_associativity_left","fx_associativity_right","fx_depends_on_column","fx_dynamic_precedence","fx_epsilon_external_tokens","fx_external_and_internal_tokens","fx_external_tokens","fx_external_unicode_column_alignment","fx_extra_non_terminals","fx_extra_non_terminals_with_shared_rules","fx_immediate_tokens","fx_inline_rules","fx_inlined_aliased_rules","fx_lexical_conflicts_due_to_state_merging","fx_named_rule_aliased_as_anonymous","fx_nested_inlined_rules","fx_next_sibling_from_zwt","fx_precedence_on_subsequence","fx_readme_grammar","fx_reserved_words","fx_unicode_classes","jsonish","lst","stmt","pairs"];
         zoo::list().into_iter().filter(|l| allow.contains(&l.as_str())).collect()
     } else {
         default_langs.iter().map(|s| s.to_string()).filter(|s| zoo::zoo_dir(s).join("grammar.json").exists()).collect()
@@ -644,10 +707,29 @@ fn main() {
         let mut g = QGen::new(&b.language);
         let mut parser = Parser::new();
         parser.set_language(&b.language).unwrap();
-        for d in 0..docs_per_lang {
+        // languages with comment extras get twice the documents (half of them with comments sprinkled in)
+        let ndocs = if matches!(id.as_str(), "pairs" | "arith" | "stmt") { docs_per_lang * 2 } else { docs_per_lang };
+        for d in 0..ndocs {
             let budget = [5, 10, 18, 30][d % 4];
             let toks = gg.sentence(&mut rng, budget);
             let (mut text, bounds) = gg.render(&toks, &mut rng);
+            // comments (extras) between tokens: they are siblings of whatever they land between
+            let comments: &[&str] = match id.as_str() {
+                "pairs" => &["#c#", "#x y#"],
+                "arith" => &["# note\n"],
+                "stmt" => &["// c\n"],
+                _ => &[],
+            };
+            if !comments.is_empty() && d % 2 == 0 {
+                let mut starts: Vec<usize> = bounds.iter().step_by(2).copied().collect();
+                starts.dedup();
+                for &pos in starts.iter().rev() {
+                    if pos > 0 && pos <= text.len() && rng.chance(1, 4) {
+                        let c = format!("{} ", rng.pick(comments));
+                        text.splice(pos..pos, c.bytes());
+                    }
+                }
+            }
             if d % 3 == 1 {
                 text = gen::mutate_bytes(&mut rng, &text);
             }
